@@ -131,7 +131,7 @@ CHECK = MachineCheck(ID, RULE, ("content", "uid"), strategy, nontrivial, labels=
 
 
 def store_strategy():
-    return store_program(uid_pool=UIDS[:5], etag_rate=8, with_cards=False, min_steps=8, max_steps=30)
+    return store_program(uid_pool=UIDS[:5], etag_rate=8, with_cards=False, min_steps=8, max_steps=30, two_handles=True)
 
 
 def main(tier, seed):
